@@ -363,8 +363,37 @@ impl<'a> FnGen<'a> {
         }
         v
     }
+    /// A long chain of dependent register operations: expression propagation nests them until its
+    /// recursion-depth limit is hit (the HashMap-iteration case of C23).
+    fn chain(&mut self) -> Vec<Vec<Op>> {
+        let acc = *self.rng.pick(&["RAX", "RCX", "RDX", "RSI"]);
+        let n = 10 + self.rng.below(6);
+        let mut v = Vec::new();
+        for _ in 0..n {
+            let m = *self.rng.pick(&["INT_ADD", "INT_XOR", "INT_SUB", "INT_OR", "INT_AND", "INT_MULT"]);
+            let other = if self.rng.chance(2, 3) { self.r64() } else { cst(self.small_const(), 8) };
+            v.push(vec![bin(reg(acc, 8), m, reg(acc, 8), other)]);
+        }
+        // use the value: as an address and as a parameter candidate
+        if self.rng.chance(1, 2) {
+            v.push(vec![load(self.r64(), reg(acc, 8))]);
+        } else {
+            v.push(vec![copy(reg("RDI", 8), reg(acc, 8))]);
+        }
+        v
+    }
     fn straight(&mut self, n: u64) -> Vec<Vec<Op>> {
-        (0..n).map(|_| if self.rng.chance(1, 3) { self.mem() } else { self.arith() }).collect()
+        let mut v: Vec<Vec<Op>> = Vec::new();
+        for _ in 0..n {
+            if self.rng.chance(1, 12) {
+                v.extend(self.chain());
+            } else if self.rng.chance(1, 3) {
+                v.push(self.mem());
+            } else {
+                v.push(self.arith());
+            }
+        }
+        v
     }
 }
 
